@@ -331,6 +331,21 @@ v("C13", "server-authinfo-always-nil", "httpgrpc/server.go",
 	return &pr""", """	_ = credentials.TLSInfo{}
 	return &pr""", "R3", "authinfo", "server peer never reports TLS")
 
+v("C17", "inline-invoker-equivalent", "intercept.go",
+  """	return intch.unaryInt(ctx, methodName, req, resp, cc, intch.unaryInvoker, opts...)
+}""", """	invoker := func(ctx context.Context, method string, req, resp interface{}, _ *grpc.ClientConn, callOpts ...grpc.CallOption) error {
+		return intch.ch.Invoke(ctx, method, req, resp, callOpts...)
+	}
+	return intch.unaryInt(ctx, methodName, req, resp, cc, invoker, opts...)
+}""", silent=True, why="behaviour-preserving: invoker as a function literal forwarding its own options")
+v("C17", "inline-invoker-wrong-opts", "intercept.go",
+  """	return intch.unaryInt(ctx, methodName, req, resp, cc, intch.unaryInvoker, opts...)
+}""", """	invoker := func(ctx context.Context, method string, req, resp interface{}, _ *grpc.ClientConn, callOpts ...grpc.CallOption) error {
+		return intch.ch.Invoke(ctx, method, req, resp, opts...)
+	}
+	return intch.unaryInt(ctx, methodName, req, resp, cc, invoker, opts...)
+}""", "R2", "continuation", "sub-agent mutant C17-invoker-opts: literal forwards the outer opts, dropping the interceptor's")
+
 
 def main():
     if os.path.isdir(OUT):
